@@ -1,1 +1,53 @@
-// harness bodies compiled inside quinn-proto/src/shared.rs (feature __verif-hooks)
+// Harness bodies for quinn-proto/src/shared.rs (ConnectionId).
+
+/// C10: ConnectionId long-header form round-trip for every length 0..=20 and every content.
+pub fn cid_long_roundtrip(bytes: [u8; 20], len: usize) -> u32 {
+    if len > MAX_CID_SIZE {
+        return 0;
+    }
+    let cid = ConnectionId::new(&bytes[..len]);
+    assert!(cid.len() == len);
+    let mut buf = [0u8; 21];
+    let mut w = &mut buf[..];
+    cid.encode_long(&mut w);
+    let written = 21 - w.len();
+    assert!(written == len + 1);
+    assert!(buf[0] as usize == len);
+    let mut r = &buf[..written];
+    let Some(dec) = ConnectionId::decode_long(&mut r) else { panic!("decode_long failed") };
+    assert!(r.is_empty());
+    assert!(dec.len() == len);
+    let mut i = 0;
+    while i < len {
+        assert!(dec[i] == bytes[i]);
+        i += 1;
+    }
+    assert!(dec == cid);
+    // truncated encodings are rejected
+    if len > 0 {
+        let mut r = &buf[..written - 1];
+        assert!(ConnectionId::decode_long(&mut r).is_none());
+    }
+    1 | (if len == 0 { 2 } else { 0 }) | (if len == 20 { 4 } else { 0 })
+}
+
+/// C03/C10: decode_long is total on arbitrary bytes; Some only for an announced length <= 20
+/// that is fully present, consuming exactly 1 + len bytes.
+pub fn cid_decode_long_total(buf: [u8; 22], n: usize) -> u32 {
+    if n > 22 {
+        return 0;
+    }
+    let mut r = &buf[..n];
+    match ConnectionId::decode_long(&mut r) {
+        Some(c) => {
+            assert!(n >= 1 && buf[0] as usize <= MAX_CID_SIZE && n >= 1 + buf[0] as usize);
+            assert!(c.len() == buf[0] as usize);
+            assert!(r.len() == n - 1 - c.len());
+            1
+        }
+        None => {
+            assert!(n == 0 || buf[0] as usize > MAX_CID_SIZE || n < 1 + buf[0] as usize);
+            2
+        }
+    }
+}
